@@ -362,6 +362,7 @@ def r15_5(ctx):
     s0, s1, s2 = Piece("s0"), Piece("s1", 3), Piece("s2")
     pieces = [Piece("p0", 3), Piece("p1", 3), Piece("p2", 3)]
     asked = []
+    before = {x.name: tuple(x.ctrlpoints) for x in pieces}
     s1.split = lambda nodes: (asked.append(tuple(nodes)) or tuple(pieces))
     S = Obj("J", segments=(s0, s1, s2))
     try:
@@ -381,6 +382,11 @@ def r15_5(ctx):
             errs.append("outer ends of the pieces are not the original end point objects")
         if p1.ctrlpoints[0] is not p0.ctrlpoints[-1] or p2.ctrlpoints[0] is not p1.ctrlpoints[-1]:
             errs.append("consecutive pieces do not share their junction point object")
+        for x in (p0, p1, p2):
+            now, was = tuple(x.ctrlpoints), before[x.name]
+            if len(now) != len(was) or any(a is not b for a, b in zip(now[1:-1], was[1:-1])):
+                errs.append(f"piece {x.name} does not keep its interior control points: {[str(q) for q in was]} -> "
+                            f"{[str(q) for q in now]} (a curved piece is replaced by another curve)")
     if errs:
         out.bad(fn.qname, "pieces are not inserted / re-glued correctly", where=fn.where(), detail="; ".join(errs))
     else:
